@@ -273,8 +273,15 @@ class CylindricalSymGrid(GridBase):
     def difference_vector(
         self, p1: FloatingArray, p2: FloatingArray, *, coords: CoordsType = "grid"
     ) -> FloatingArray:
+        # the difference vector has Cartesian components (x, y, z), so that the periodic
+        # axial direction corresponds to the third component
+        no_bounds = (-np.inf, np.inf)
         return self._difference_vector(
-            p1, p2, coords=coords, periodic=self.periodic, axes_bounds=self.axes_bounds
+            p1,
+            p2,
+            coords=coords,
+            periodic=[False, False, self.periodic[1]],
+            axes_bounds=(no_bounds, no_bounds, self.axes_bounds[1]),
         )
 
     def get_line_data(
